@@ -6719,6 +6719,14 @@ impl<'a, 'graph> Builder<'a, 'graph> {
               }
             });
           if dep.is_dynamic && !self.in_dynamic_branch {
+            // the branch is queued once per specifier, so attribute a
+            // jsr/npm requirement to this importer now
+            if matches!(specifier.scheme(), "jsr" | "npm")
+              && let Ok(load_specifier) =
+                self.parse_load_specifier_kind(specifier, Some(range))
+            {
+              self.maybe_mark_dep(&load_specifier, Some(range));
+            }
             let value = self
               .state
               .dynamic_branches
@@ -6764,6 +6772,12 @@ impl<'a, 'graph> Builder<'a, 'graph> {
               }
             });
           if dep.is_dynamic && !self.in_dynamic_branch {
+            if matches!(specifier.scheme(), "jsr" | "npm")
+              && let Ok(load_specifier) =
+                self.parse_load_specifier_kind(specifier, Some(range))
+            {
+              self.maybe_mark_dep(&load_specifier, Some(range));
+            }
             self.state.dynamic_branches.insert(
               specifier.clone(),
               PendingDynamicBranch {
